@@ -253,4 +253,152 @@ Proof.
     cbn [flat_map]; (apply Forall2_app; [|now apply IHr]); apply (out_rel_tok _ ne); try assumption;
     intros ne' ts' hs'l H1 H2; try exact I; intros H3; now apply (IHd ne').
 Qed.
+
+(* ---------- the source list ---------- *)
+Definition wf_src2 (i : sitem) : Prop :=
+  forallb okd (stoks i) = true /\
+  match i with
+  | SToks l => forallb (src_tok fs) l = true
+  | SCall t lp a more rp =>
+      is_id t = true /\ is_def t = false /\ is_punct "(" lp = true /\ is_punct ")" rp = true /\
+      forallb (arg_tok2 fs) a = true /\
+      Forall (fun ca => is_punct "," (fst ca) = true /\ forallb (arg_tok2 fs) (snd ca) = true) more /\
+      exists n ps b, flookup fs (tt t) = Some (FFun n ps b) /\ List.length ps = S (List.length more)
+  end.
+
+Lemma arg2_facts t : arg_tok2 fs t = true -> okd t = true /\ plain_arg t = true /\ okf fs t = true /\ is_def t = false.
+Proof.
+  unfold arg_tok2, src_tok. rewrite !andb_true_iff, negb_true_iff. intros [[Hf Hd] Hp].
+  repeat split; try assumption. unfold okf in Hf. apply andb_true_iff in Hf. tauto.
+Qed.
+Lemma arg2_okt2 t : arg_tok2 fs t = true -> okt2 tb t = true.
+Proof. intros H. destruct (arg2_facts t H) as (_ & _ & Hf & _). now apply (okf_okt2 fs). Qed.
+
+Lemma args_of_call a (more : list (tok * list tok)) :
+  forallb (arg_tok2 fs) a = true ->
+  Forall (fun ca => is_punct "," (fst ca) = true /\ forallb (arg_tok2 fs) (snd ca) = true) more ->
+  Forall (fun x => forallb (arg_tok2 fs) x = true) (a :: map snd more).
+Proof.
+  intros Ha Hmore. constructor; [assumption|]. rewrite Forall_forall in Hmore |- *. intros x Hxin. apply in_map_iff in Hxin.
+  destruct Hxin as (ca & <- & Hca). now apply Hmore.
+Qed.
+
+Definition exM (d : nat) (al : list (list tok)) : list (list tok) := map (flat_map (E tb d [None; None])) al.
+
+Lemma exM_okt2 d al : Forall (fun x => forallb (arg_tok2 fs) x = true) al ->
+  Forall (fun a => forallb (okt2 tb) a = true) (exM d al).
+Proof.
+  intros H. unfold exM. rewrite Forall_forall in H |- *. intros x Hx. apply in_map_iff in Hx. destruct Hx as (a & <- & Ha).
+  apply E_out_okt2. apply (forallb_impl (arg_tok2 fs) (okt2 tb)); [apply arg2_okt2|now apply H].
+Qed.
+
+Lemma wf_src2_sitem lead cat_fix str_white resub_fix va_fix d i :
+  wf_src2 i -> wf_sitem lead cat_fix str_white resub_fix va_fix tb d [None] i.
+Proof.
+  intros [Hokd Hi]. destruct i as [l|t lp a more rp]; cbn [wf_sitem].
+  - now apply src_wfd.
+  - destruct Hi as (Hid & Hdef & Hlp & Hrp & Ha & Hmore & n & ps & b & Hfl & Hlen).
+    assert (Hto : okd t = true) by (cbn [stoks forallb] in Hokd; apply andb_true_iff in Hokd; tauto).
+    pose proof (okd_tx t Hto) as Hx.
+    pose proof (args_of_call a more Ha Hmore) as Hargs.
+    split; [assumption|]. split; [unfold is_def in Hdef; rewrite Hid in Hdef; exact Hdef|].
+    split; [rewrite Hx; reflexivity|]. split; [now apply is_punct_txt|].
+    split.
+    { apply (forallb_impl (arg_tok2 fs) plain_arg); [|assumption]. intros x Hxa. now destruct (arg2_facts x Hxa) as (_ & Hp & _). }
+    split.
+    { unfold more_ok. rewrite Forall_forall in Hmore |- *. intros ca Hca. destruct (Hmore ca Hca) as [Hc Hal]. split; [now apply is_punct_txt|].
+      apply (forallb_impl (arg_tok2 fs) plain_arg); [|assumption]. intros x Hxa. now destruct (arg2_facts x Hxa) as (_ & Hp & _). }
+    split; [now apply is_punct_txt|].
+    split.
+    { rewrite Forall_forall in Hargs |- *. intros x Hxin. apply (forallb_impl (arg_tok2 fs) (okt2 tb)); [apply arg2_okt2|now apply Hargs]. }
+    destruct (fun_facts fs Hwf n ps b (flookup_In _ _ _ Hfl)) as (Hb & Hps & Hnd & Hva & Hno & Hpar & Hne).
+    exists (fmacro n ps b), (sm ps (exM (S d) (a :: map snd more)) (set_w_hd false b)).
+    split; [rewrite get_mtable2, Hfl; reflexivity|]. split; [reflexivity|]. split; [reflexivity|].
+    split.
+    { apply replace_fun_fmacro2; try assumption. cbn [List.length]. now rewrite map_length. }
+    apply okt2_set_w_hd. apply (sm_okt2 fs).
+    + apply okt2_set_w_hd. apply (forallb_impl (okf fs) (okt2 tb)); [apply (okf_okt2 fs)|assumption].
+    + now apply exM_okt2.
+Qed.
+
+(* ---------- specification side ---------- *)
+Lemma is_flh_funname z : is_flh stb z = tkind_eqb (hk z) KId && is_funname fs (ht z).
+Proof.
+  unfold is_flh, is_funname. rewrite slookup2. destruct (flookup fs (ht z)) as [[n b|n ps b]|]; reflexivity.
+Qed.
+
+Lemma Forall2_in_r {A B} (R : A -> B -> Prop) l l' : Forall2 R l l' -> forall y, In y l' -> exists x, In x l /\ R x y.
+Proof.
+  intros H. induction H as [|a b l l' Hab Hr IH]; intros y Hy; [contradiction|].
+  destruct Hy as [<-|Hy]; [exists a; split; [now left|assumption]|].
+  destruct (IH y Hy) as (x & Hx & Hxy). exists x. split; [now right|assumption].
+Qed.
+
+(* what the relation and the implementation-side facts give for the specification tokens *)
+Lemma inert_facts lM lS :
+  Forall2 inert_rel lM lS -> forallb (okt2 tb) lM = true -> forallb nonempty lM = true ->
+  forall z, In z lS -> okh z = true /\ is_flh stb z = false /\ inertS z /\ String.eqb (ht z) "" = false.
+Proof.
+  intros Hrel Hok Hne z Hz. destruct (Forall2_in_r _ _ _ Hrel z Hz) as (t & Ht & ((Hk & Htt) & _ & HiS)).
+  rewrite forallb_forall in Hok, Hne. specialize (Hok t Ht). specialize (Hne t Ht).
+  unfold okt2, okt0 in Hok. rewrite andb_true_iff, !negb_true_iff in Hok. destruct Hok as [Hd Hfl].
+  repeat split.
+  - unfold okh. rewrite Hk, Htt. apply negb_true_iff. exact Hd.
+  - rewrite is_flh_funname, Hk, Htt. rewrite (is_fl_funname fs) in Hfl. exact Hfl.
+  - exact HiS.
+  - rewrite Htt. unfold nonempty in Hne. now apply negb_true_iff in Hne.
+Qed.
+
+Lemma rel_hl0 ne l : somes ne = [] -> forallb tx l = true -> Forall2 (rel ne) l (map hl0 l).
+Proof.
+  intros Hne. induction l as [|t r IH]; intros Htx; cbn; constructor.
+  - cbn [forallb] in Htx. apply andb_true_iff in Htx. destruct Htx as [Hx _].
+    split; [split; reflexivity|]. left. split; [assumption|]. intros s. cbn.
+    apply not_true_is_false. intros H. apply in_noexp_spec in H. rewrite Hne in H. contradiction.
+  - apply IH. cbn [forallb] in Htx. apply andb_true_iff in Htx. tauto.
+Qed.
+
+Definition gS (d : nat) (a : list htok) : list htok := flat_map (ES stb d) a.
+
+Lemma arg_out_rel d x :
+  List.length fs <= d -> forallb (arg_tok2 fs) x = true ->
+  Forall2 inert_rel (flat_map (E tb d [None; None]) x) (gS d (map hl0 x)).
+Proof.
+  intros Hd Hx. apply out_rel.
+  - apply (forallb_impl (arg_tok2 fs) (okt2 tb)); [apply arg2_okt2|assumption].
+  - apply rel_hl0; [reflexivity|]. apply (forallb_impl (arg_tok2 fs) tx); [|assumption].
+    intros z Hz. destruct (arg2_facts z Hz) as (Ho & _). now apply okd_tx.
+  - repeat split; cbn [somes]; [constructor|intros y []|]. unfold names, mtable2. rewrite !map_length. cbn. lia.
+Qed.
+
+Lemma arg_out_facts d x :
+  List.length fs <= d -> forallb (arg_tok2 fs) x = true ->
+  forall z, In z (gS d (map hl0 x)) -> okh z = true /\ is_flh stb z = false /\ inertS z /\ String.eqb (ht z) "" = false.
+Proof.
+  intros Hd Hx. apply (inert_facts (flat_map (E tb d [None; None]) x)).
+  - now apply arg_out_rel.
+  - apply E_out_okt2. apply (forallb_impl (arg_tok2 fs) (okt2 tb)); [apply arg2_okt2|assumption].
+  - apply E_out_nonempty.
+    + apply (forallb_impl (arg_tok2 fs) (okt2 tb)); [apply arg2_okt2|assumption].
+    + apply (forallb_impl (arg_tok2 fs) nonempty); [|assumption]. intros y Hy. destruct (arg2_facts y Hy) as (Ho & _). now apply okd_nonempty.
+Qed.
+
+(* complete replacement of each argument, for every sufficiently large fuel *)
+Lemma args_expand d al :
+  List.length fs <= d -> Forall (fun x => forallb (arg_tok2 fs) x = true) al ->
+  exists N, forall f, N <= f -> forall x, In x al -> expandS stb f (map hl0 x) = Ok (gS d (map hl0 x)).
+Proof.
+  intros Hd Hal. induction Hal as [|x al Hx Hr IH].
+  - exists 0. intros f _ x [].
+  - destruct IH as (N & HN).
+    destruct (sscan_all stb (HSobj2 fs Hwf) d (map hl0 x) []) as (n & Hn).
+    { intros y Hy. apply in_map_iff in Hy. destruct Hy as (t & <- & Ht). rewrite forallb_forall in Hx. specialize (Hx t Ht).
+      destruct (arg2_facts t Hx) as (Ho & _ & Hf & _). split; [reflexivity|]. split; [now apply okd_okh0|].
+      change (is_flh stb (hl0 t)) with (is_flb stb (btok_of t)). rewrite (is_flb_funname fs).
+      unfold okf in Hf. rewrite andb_true_iff, negb_true_iff in Hf. tauto. }
+    { repeat split; [constructor|intros y []|]. unfold snames, stable2. rewrite !map_length. cbn. lia. }
+    exists (S n + N). intros f Hf y [<-|Hy]; [|apply HN; [lia|assumption]].
+    replace f with (n + (f - n)) by lia. rewrite <- (app_nil_r (map hl0 x)) at 1.
+    rewrite (Hn (f - n) [] []); [now rewrite app_nil_r|]. destruct (f - n) eqn:E; [lia|reflexivity].
+Qed.
 End FunLikeG.
